@@ -42,6 +42,7 @@ func (c c17Cfg) String() string { return fmt.Sprintf("entries=%d parallel=%d", c
 var c17Answers = []string{"quota-ok", "quota-low", "404", "500", "cancel"}
 
 type c17Res struct {
+	over     string // first moment at which more steps were admitted than the limit allows
 	out      qsched.Outcome
 	errs     []string
 	devs     []string
@@ -52,7 +53,16 @@ type c17Res struct {
 	nreq     int
 }
 
-var c17g = []*graphs.Graph{graphs.Build("G1"), graphs.Build("G2"), graphs.Build("G4")}
+// three small single-layer images: the subject is the step throttle, not the copy
+var c17g = func() []*graphs.Graph {
+	var out []*graphs.Graph
+	for _, n := range []string{"a", "b", "c"} {
+		g := graphs.New("tiny-"+n, "sha256")
+		g.Top = g.SimpleImage(false, "amd64", "layer-"+n).Digest
+		out = append(out, g)
+	}
+	return out
+}()
 
 func c17YAML(c c17Cfg) string {
 	var sb strings.Builder
@@ -80,8 +90,34 @@ func c17Run(t *testing.T, c *explore.Ctx, cfg c17Cfg) *c17Res {
 			}
 		}()
 		var sched *qsched.Sched
+		var opts *rootOpts
+		inCopy := map[string]bool{} // target repositories of the steps that are writing (they hold a slot until they return)
 		net.OnArrive = func(e *modelreg.Entry) {
-			if sched != nil {
+			if sched != nil && opts != nil && res.phase == "run" {
+				if e.Host == c17Tgt && e.Mutating() {
+					inCopy[e.Repo] = true
+				}
+				// the slots that can still be taken plus the steps that are writing may never exceed the limit
+				if res.over == "" {
+					free := 0
+					var dones []func()
+					for free <= cfg.Parallel {
+						d, err := opts.throttle.TryAcquire(context.Background(), throttle{})
+						if err != nil || d == nil {
+							break
+						}
+						dones = append(dones, d)
+						free++
+					}
+					for _, d := range dones {
+						d()
+					}
+					if free+len(inCopy) > cfg.Parallel {
+						res.over = fmt.Sprintf("at request %d (%s) %d step(s) are writing and %d further slot(s) can be taken, limit %d", e.Seq, e, len(inCopy), free, cfg.Parallel)
+					}
+				}
+				sched.Point(qsched.KHTTP, "")
+			} else if sched != nil {
 				sched.Point(qsched.KHTTP, "")
 			}
 		}
@@ -129,7 +165,7 @@ func c17Run(t *testing.T, c *explore.Ctx, cfg c17Cfg) *c17Res {
 		if err != nil {
 			panic(explore.HarnessError{Msg: "config does not load: " + err.Error()})
 		}
-		opts := &rootOpts{
+		opts = &rootOpts{
 			conf:     conf,
 			rc:       rcenv.New(net, []string{c17Src, c17Tgt}, rcenv.Opts{RetryLimit: 2}),
 			throttle: pqueue.New(pqueue.Opts[throttle]{Max: cfg.Parallel}),
@@ -146,10 +182,12 @@ func c17Run(t *testing.T, c *explore.Ctx, cfg c17Cfg) *c17Res {
 				sched = sc
 				errCh[i] = opts.process(ctx, s, actionCopy)
 				finished[i] = true
+				delete(inCopy, fmt.Sprintf("mirror/app%d", i))
 			}
 		}
 		res.phase = "run"
-		res.out = qsched.Run(c, qsched.Config{Branch: map[qsched.Kind]bool{}}, threads, names)
+		// request arrivals are scheduling points: a step can be overtaken in the middle of its copy
+		res.out = qsched.Run(c, qsched.Config{Mode: qsched.Preemption, Branch: map[qsched.Kind]bool{qsched.KHTTP: true}}, threads, names)
 		sched = nil
 		for i := range finished {
 			if finished[i] {
@@ -202,6 +240,9 @@ func c17Judge(cfg c17Cfg, r *c17Res) (string, string) {
 	if k == "" {
 		k = "none"
 	}
+	if r.over != "" {
+		return "regsync-over-limit answers=" + k, fmt.Sprintf("more sync steps admitted than defaults.parallel allows: %s; answers %v", r.over, r.devs)
+	}
 	if r.out.Deadlock || r.out.Horizon {
 		return "regsync-steps-blocked answers=" + k, fmt.Sprintf("%d of %d sync steps returned, the others wait for ever (%s); answers %v", r.done, cfg.Entries, r.out.DeadlockAt, r.devs)
 	}
@@ -222,7 +263,7 @@ type c17Replay struct {
 func TestVerifC17Sync(t *testing.T) {
 	rec := ev.New()
 	defer rec.Flush(t)
-	rec.Rule("regsync use site: 1-3 image entries with a source rate-limit minimum, defaults.parallel 1-2 (thorough up to 4 entries / 3), started as runOnce starts them on the real rootOpts.process; at every manifest HEAD/GET of the source the model answers {quota above the minimum, quota below the minimum (the step gives its slot back, sleeps in virtual time, asks for a slot again), 404, 500, cancellation of the run}; every sequence of at most k non-default answers (k=3 quick, 4 thorough). Oracle: every step returns (no step waits for ever), and afterwards all slots of the throttle can be taken again. distinct_nontrivial = distinct (configuration, answers, outcome)")
+	rec.Rule("regsync use site: 1-3 image entries with a source rate-limit minimum, defaults.parallel 1-2 (quick: at most two entries when parallel is 2; thorough up to 4 entries / parallel 3), started as runOnce starts them on the real rootOpts.process; at every manifest HEAD/GET of the source the model answers {quota above the minimum, quota below the minimum (the step gives its slot back, sleeps in virtual time, asks for a slot again), 404, 500, cancellation of the run}; request arrivals are scheduling points; every execution with at most k deviations in total (a non-default answer or a pre-emption of a running step; k=2 quick, 3 thorough). Oracle: at every request arrival the number of steps that are writing to the target plus the slots that can still be taken does not exceed defaults.parallel; every step returns (no step waits for ever); afterwards all slots of the throttle can be taken again. distinct_nontrivial = distinct (configuration, answers, outcome)")
 	if rd := rec.ReplayData(); rd != nil {
 		var rp c17Replay
 		if err := json.Unmarshal(rd, &rp); err != nil {
@@ -245,12 +286,15 @@ func TestVerifC17Sync(t *testing.T) {
 	}
 	for e := 1; e <= maxE; e++ {
 		for p := 1; p <= maxP && p <= e+1; p++ {
+			if !rec.Thorough() && e >= 3 && p >= 2 {
+				continue // three overlapping steps: thorough tier
+			}
 			items = append(items, c17Cfg{Entries: e, Parallel: p})
 		}
 	}
-	bound := 3
+	bound := 2
 	if rec.Thorough() {
-		bound = 4
+		bound = 3
 	}
 	for _, cfg := range items {
 		if rec.Expired() {
